@@ -49,6 +49,7 @@ PANEL_TRANSFORMERS = {
     # (no Parallel inside: only the input-mutation, repeat-call and pickle clauses bite here)
     "Rocket": {"num_kernels": [20, 50], "normalise": [True, True, False]},
     "MiniRocket": {"num_features": [84]},
+    "PCATransformer": {"n_components": [2, 3]},
 }
 CLASSIFIERS = {
     "TimeSeriesForestClassifier": {"n_estimators": [3, 5], "min_interval": [3]},
@@ -135,7 +136,7 @@ def generate(prop, rng, tier):
         scen["params"] = {k: rng.choice(v) for k, v in PANEL_TRANSFORMERS[name].items()}
         scen["panel"] = {"n": rng.randint(5, 9), "cols": rng.choice([1, 1, 2]), "len": rng.choice([16, 20])}
         scen["container"] = rng.choice(["nested_series", "nested_series", "nested_array", "numpy3d"])
-        if name in ("Rocket", "MiniRocket"):
+        if name in ("Rocket", "MiniRocket", "PCATransformer"):
             scen["container"] = rng.choice(["nested_series", "numpy3d", "numpy3d"])
             scen["panel"]["cols"] = 1
         calls = [{"m": "transform", "which": rng.choice(["train", "test"])}
